@@ -306,7 +306,8 @@ pub fn apply_in_txn(w: &mut QueryServerWriteTransaction<'_>, op: &Op) -> Result<
         }
         Op::PurgeRecycled => w.purge_recycled().map(|_| ()),
         Op::PurgeTombstones => w.purge_tombstones().map(|_| ()),
-        Op::Reindex => w.reindex(true),
+        // immediate=false: the immediate mode prints progress to stdout
+        Op::Reindex => w.reindex(false),
         Op::Advance { .. } => Ok(()),
         Op::DomainRename { i } => w.danger_domain_rename(DOMAINS[*i as usize % DOMAINS.len()]),
         Op::BadSingleMulti { t } => modify(
